@@ -150,7 +150,12 @@ func ruleRelease(c *Check, rule string, w *walkerInfo) {
 			}
 		}
 		if guard == nil {
-			c.Unknown(rule, key, "the release of a dependant is not guarded by a recognised all-dependencies-done flag (flag-style ∀ loop expected)", pos)
+			// helper style: `if w.allDepsDone(dependant) { start }`
+			if why, ok, found := releaseGuardedByHelper(c, fn, site, dependant); found {
+				c.Require(ok, rule, key, "released only when a helper that ranges over all of inEdges[dependant] and returns false on the first missing or unsuccessful dependency returned true", why, pos)
+				continue
+			}
+			c.Unknown(rule, key, "the release of a dependant is not guarded by a recognised all-dependencies-done test (flag-style ∀ loop or bool helper expected)", pos)
 			continue
 		}
 		phi := guard.(*ssa.Phi)
@@ -449,4 +454,115 @@ func spawnOnlyForSelected(fn *ssa.Function, at ssa.Instruction) bool {
 	}
 	r, _ := engine.PathExists(fn, nil, engine.IsInstr(at), engine.PathQuery{CutEdge: engine.CutEdgesWhere(func(a engine.Atom) bool { return isSelectedTrue(a) || registered(a) })})
 	return !r
+}
+
+// releaseGuardedByHelper: the release site is dominated by the true edge of a call
+// H(dependant) to a first-party bool function that is a return-style ∀ over the
+// dependant's in-edges. Returns (problem, ok, found).
+func releaseGuardedByHelper(c *Check, fn *ssa.Function, site ssa.CallInstruction, dependant ssa.Value) (string, bool, bool) {
+	for _, b := range fn.Blocks {
+		ifi, ok := lastIf(b)
+		if !ok {
+			continue
+		}
+		a := engine.CondAtom(ifi.Cond, true)
+		call, _ := engine.CallOf(a.V)
+		if a.Op != "true" || call == nil || len(c.G.Callees[call]) != 1 {
+			continue
+		}
+		v := a.V
+		if r, _ := engine.PathExists(fn, nil, engine.IsInstr(site), engine.PathQuery{CutEdge: engine.CutEdgesWhere(func(x engine.Atom) bool { return x.Op == "true" && x.V == v })}); r {
+			continue
+		}
+		h := c.G.Callees[call][0]
+		if h.Signature.Results().Len() != 1 || h.Signature.Results().At(0).Type().String() != "bool" {
+			continue
+		}
+		// which parameter receives the dependant
+		var prm *ssa.Parameter
+		for i, arg := range call.Common().Args {
+			if sameVar(arg, dependant) && i < len(h.Params) {
+				prm = h.Params[i]
+			}
+		}
+		if prm == nil {
+			return "the all-dependencies-done helper is not asked about the dependant being released", false, true
+		}
+		// the ∀ loop inside the helper
+		var lp *engine.Loop
+		for _, l := range engine.LoopsOf(h) {
+			r := l.RangedValue()
+			lk, ok := r.(*ssa.Lookup)
+			if !ok {
+				if cl, _ := engine.CallOf(r); cl != nil && strings.HasSuffix(engine.CalleeName(cl), "DirectedTargetGraph).GetDependencies") && len(cl.Common().Args) == 2 && sameVar(cl.Common().Args[1], prm) {
+					lp = l
+				}
+				continue
+			}
+			if isLoadOfField(lk.X, fInEdges) {
+				if k, _ := engine.CallOf(lk.Index); k != nil && k.Common().IsInvoke() && k.Common().Method.Name() == "GetLabel" && sameVar(k.Common().Value, prm) {
+					lp = l
+				}
+			} else if isLoadOfField(lk.X, fOutEdges) {
+				return "the helper ranges over out-edges (dependants), not the dependant's dependencies", false, true
+			}
+		}
+		if lp == nil {
+			return "the helper does not range over the in-edges of the node it is asked about (full range expected)", false, true
+		}
+		mayBeTrue := func(in ssa.Instruction) bool {
+			r, ok := in.(*ssa.Return)
+			if !ok {
+				return false
+			}
+			if k, isK := engine.BoolConst(r.Results[0]); isK {
+				return k
+			}
+			return true
+		}
+		// bad edges
+		haveMiss, haveFail := false, false
+		for bb := range lp.Body {
+			for i := range bb.Succs {
+				at, ok := engine.EdgeAtom(bb, i)
+				if !ok || at.Op != "false" {
+					continue
+				}
+				isBad := false
+				if ex, ok := at.V.(*ssa.Extract); ok && ex.Index == 1 {
+					if lk, ok := ex.Tuple.(*ssa.Lookup); ok && lk.CommaOk && engine.TypeKey(lk.X.Type()) == "dag.CompletionMap" {
+						isBad, haveMiss = true, true
+					}
+				}
+				if isLoadOfField(at.V, fIsSuccess) {
+					isBad, haveFail = true, true
+				}
+				if !isBad {
+					continue
+				}
+				first := bb.Succs[i].Instrs[0]
+				if r, _ := engine.PathExists(h, first, mayBeTrue, engine.PathQuery{}); r || mayBeTrue(first) {
+					return "after a missing or unsuccessful dependency the helper can still return true", false, true
+				}
+			}
+		}
+		if !haveMiss || !haveFail {
+			return fmt.Sprintf("a dependency that %s does not make the helper return false", map[bool]string{true: "failed", false: "has not completed yet"}[haveMiss]), false, true
+		}
+		if w := lp.EarlyExitReaches(mayBeTrue); w != "" {
+			return "the helper can return true before it has looked at every dependency: " + w, false, true
+		}
+		if lp.IterationCanSkip(func(in ssa.Instruction) bool {
+			lk, ok := in.(*ssa.Lookup)
+			return ok && lk.CommaOk && engine.TypeKey(lk.X.Type()) == "dag.CompletionMap"
+		}, nil) {
+			return "an iteration of the helper can skip a dependency without looking its completion up", false, true
+		}
+		// no `return true` before the loop
+		if r, _ := engine.PathExists(h, nil, mayBeTrue, engine.PathQuery{CutInstr: func(in ssa.Instruction) bool { return in == lp.Header.Instrs[0] }}); r {
+			return "the helper can return true without entering the dependency loop", false, true
+		}
+		return "", true, true
+	}
+	return "", false, false
 }
